@@ -620,7 +620,7 @@ class QLSTMCell(LSTMCell):
       quantized_recurrent = self.recurrent_quantizer_internal(self.recurrent_kernel)
     else:
       quantized_recurrent = self.recurrent_kernel
-    if self.bias_quantizer:
+    if self.bias_quantizer and self.use_bias:
       quantized_bias = self.bias_quantizer_internal(self.bias)
     else:
       quantized_bias = self.bias
